@@ -79,6 +79,9 @@ pub fn replay(id: &str, j: &J) -> i32 {
 /// property holds on this case now), or `None` when the case kind has no stand-alone replay.
 pub fn replay_case(id: &str, case: &J) -> Option<Vec<String>> {
     let case = case.clone();
+    if case.get("kind").and_then(|k| k.as_str()) == Some("plain-streams") && case.get("values").is_some() {
+        return replay_plain_streams(&case);
+    }
     if case.get("kind").and_then(|k| k.as_str()) == Some("spelling") {
         return replay_spelling(&case);
     }
@@ -132,7 +135,7 @@ pub(crate) fn spelling_part(rep: &mut crate::verdict::Report, prop: &str, what: 
         name: "cli: other spellings of the same command line".into(),
         evaluations: n,
         nontrivial: n,
-        note: format!("{} command lines ({what}), each also with every option in its long form with `=`, in its short form with the value attached, list values as repeated occurrences, the options in reverse order behind the positional arguments, numbers with a leading `+` or leading zeros, the defaults spelled out, the hidden --debug flag in front of and behind the subcommand, the input named /dev/stdin, a text spectrum with CRLF line ends and without the final one, view and fold also with -o over a longer existing file, into a named pipe and onto the input file itself, create also with the sample list in parts and as a samples file with LF / CRLF / mixed line ends with and without the final one: the same exit status and byte-identical output", cases.len()),
+        note: format!("{} command lines ({what}), each also with every option in its long form with `=`, in its short form with the value attached, list values as repeated occurrences, the options in reverse order behind the positional arguments, numbers with a leading `+` or leading zeros, the defaults spelled out, the hidden --debug flag in front of and behind the subcommand, the input named /dev/stdin, the input named by path with a terminal on stdin, stdout appended to a file that holds earlier output, stdout on a full device (then not a success), a text spectrum with CRLF line ends and without the final one, view and fold also with -o over a longer existing file, into a named pipe and onto the input file itself, create also with the sample list in parts and as a samples file with LF / CRLF / mixed line ends with and without the final one, a third of the command lines also under seven environments (RUST_LOG, RUST_BACKTRACE, locale, colour and terminal variables, TMPDIR / HOME pointing nowhere, thread-pool variables): the same exit status and byte-identical output", cases.len()),
         exhaustive: true,
         extra: vec![],
     });
@@ -195,3 +198,40 @@ pub(crate) fn typed_npy_and_text(shape: &[usize], descr: &str, version: u8) -> (
 }
 
 pub(crate) const NPY_DESCRS: [&str; 18] = ["<f8", ">f8", "<f4", ">f4", "|u1", "|i1", "<u2", ">u2", "<i2", ">i2", "<u4", ">u4", "<i4", ">i4", "<u8", ">u8", "<i8", ">i8"];
+
+/// The output end of a property that ends in a written spectrum: each spectrum through the library's
+/// writers on plain streams and through the file route (`subject::io_through_plain_streams`).
+pub(crate) fn plain_streams_part(rep: &mut crate::verdict::Report, prop: &str, what: &str, spectra: &[(crate::refmodel::RefArray, usize)]) {
+    let mut n = 0u64;
+    for (x, precision) in spectra {
+        n += 1;
+        let scs = crate::subject::scs_from_ref(x);
+        let r = crate::verdict::catch(|| crate::subject::io_through_plain_streams(&scs, *precision));
+        let problem = match r {
+            Ok(p) => p,
+            Err(p) => Some(format!("panic: {p}")),
+        };
+        if let Some(why) = problem {
+            rep.violation(format!("{prop}|lib|plain-streams"), format!("spectrum of shape {:?} at precision {precision}: {why}", x.shape), J::obj([("kind", J::s("plain-streams")), ("shape", J::usizes(&x.shape)), ("values", J::f64s(&x.data)), ("precision", J::u(*precision))]));
+        }
+    }
+    rep.part(crate::verdict::Part {
+        name: "lib: the written spectrum on plain streams and through the file route".into(),
+        evaluations: n,
+        nontrivial: n,
+        note: format!("{what}: text and npy through writers accepting 1 / 7 / 64 bytes per call (only write and flush implemented), into a writer that is full part-way (not a success), onto a fresh path and onto a path holding a longer file by write_to_path and write_to_path_or_stdout (the file holds exactly what a Vec receives), the npy bytes read back through buffered readers of capacity 1..129"),
+        exhaustive: true,
+        extra: vec![],
+    });
+}
+
+pub(crate) fn replay_plain_streams(case: &J) -> Option<Vec<String>> {
+    let x = crate::refmodel::RefArray { shape: case.get("shape")?.as_usizes()?, data: case.get("values")?.as_arr()?.iter().map(|v| v.as_f64()).collect::<Option<Vec<f64>>>()? };
+    let precision = case.get("precision")?.as_i64()? as usize;
+    let scs = crate::subject::scs_from_ref(&x);
+    Some(match crate::verdict::catch(|| crate::subject::io_through_plain_streams(&scs, precision)) {
+        Ok(None) => vec![],
+        Ok(Some(w)) => vec![format!("plain-streams :: {w}")],
+        Err(p) => vec![format!("plain-streams :: panic: {p}")],
+    })
+}
